@@ -38,8 +38,6 @@ class SArr(Sym):
         if attr == "ndim":
             return self.ndim if isinstance(self.ndim, int) else SInt(self.ndim)
         if attr == "shape":
-            if isinstance(self.ndim, int):
-                return (SInt(self.n0),) if self.ndim == 1 else (SInt(self.n0), SInt(self.n1))
             return ShapeTuple(self)
         if attr == "T":
             if self.ndim == 2:
@@ -340,13 +338,32 @@ class ShapeTuple(Sym):
         self.arr = arr
 
     def getitem(self, I, idx, node):
-        if idx == 0:
+        if idx == 0 or idx == -2:
             return SInt(self.arr.n0)
-        if idx == 1:
-            if not I.ctx.spec_mode:
-                I.ctx.oblige("index", self.arr.ndim == 2, I.line(node), note="shape[1] of a 2-D array")
+        if idx == 1 or idx == -1:
+            self.arr.resolve_rank(I)
+            if not I.ctx.spec_mode:        # specifications index mathematically (operands of 'and' are all evaluated)
+                if isinstance(self.arr.ndim, int):
+                    if self.arr.ndim != 2:
+                        if idx == -1:
+                            return SInt(self.arr.n0)
+                        I.raise_py(IndexError, node)
+                else:
+                    I.ctx.oblige("index", self.arr.ndim == 2, I.line(node), note="shape[1] of a 2-D array")
             return SInt(self.arr.n1)
         raise Unsupported("shape index")
+
+    def length(self, I):
+        self.arr.resolve_rank(I)
+        return self.arr.ndim if isinstance(self.arr.ndim, int) else SInt(self.arr.ndim)
+
+    def iterate(self, I):
+        self.arr.resolve_rank(I)
+        if self.arr.ndim == 1:
+            return [SInt(self.arr.n0)]
+        if self.arr.ndim == 2:
+            return [SInt(self.arr.n0), SInt(self.arr.n1)]
+        raise Unsupported("iteration over the shape of an array of unknown rank")
 
 
 class DType(Sym):
